@@ -597,6 +597,108 @@ def s2_initial_value(ctx, rep):
 
 
 # ---- notification ---------------------------------------------------------------------------
+def flag_const(ctx, t):
+    """key of a two-valued-flag constant: 'true' / 'false' or 'Enum::Variant' of a crate-local
+    enum whose variants all carry no data; None for anything else"""
+    t = strip_clone(strip_wrap(t))
+    if t[0] == "const" and t[1] in ("true", "false"):
+        return t[1]
+    if t[0] == "agg" and t[1].startswith("adt:") and not t[2]:
+        path = t[1][4:]
+        adt, _, var = path.rpartition("::")
+        a = ctx.prog.facts.adts.get(adt)
+        if a is not None and all(not v["fields"] for v in a["variants"]) and len(a["variants"]) >= 2:
+            return "%s::%s" % (adt.split("::")[-1], var)
+    return None
+
+
+def _variant_index(ctx, t):
+    t = strip_clone(strip_wrap(t))
+    if t[0] == "agg" and t[1].startswith("adt:"):
+        adt, _, var = t[1][4:].rpartition("::")
+        a = ctx.prog.facts.adts.get(adt)
+        if a is not None:
+            for i, v in enumerate(a["variants"]):
+                if v["name"] == var:
+                    return i
+    return None
+
+
+def flag_switch_value(ctx, t):
+    """the integer a SwitchInt would see for a closed term built from flag constants, or None"""
+    t = strip_clone(strip_wrap(t))
+    if t[0] == "const":
+        if t[1] == "true":
+            return 1
+        if t[1] == "false":
+            return 0
+        return None
+    if t[0] == "discr":
+        return _variant_index(ctx, t[1])
+    if t[0] == "unop" and t[1] == "Not":
+        v = flag_switch_value(ctx, t[2])
+        return None if v is None else 1 - v
+    if t[0] == "binop" and t[1] in ("Eq", "Ne"):
+        a, b = flag_switch_value(ctx, t[2]), flag_switch_value(ctx, t[3])
+        if a is None or b is None:
+            return None
+        r = a == b
+        return int(r if t[1] == "Eq" else not r)
+    return None
+
+
+def flag_test_edges(ctx, G, k, n, members, P, derives_from=None):
+    """if the switch at graph node k tests a value that is a function of the chain's two-valued
+    notify flag (phi of the two constants in `members`, given as (notify term, keep term)):
+    (edge taken when notifying, edge taken when keeping), else None"""
+    from mirq.interp import rebuild
+    t = n.body.blocks[n.bb]["term"]
+    if t["k"] != "switch" or t["discr"]["k"] == "const":
+        return None
+    bp = ctx.prog.bp(n.body)
+    raw = bp.operand_term(t["discr"], n.bb, "term")
+
+    def eq_of_enum(x):
+        # `a == b` on a data-less enum whose (derived) PartialEq compares discriminants
+        if x[0] == "call" and x[2] in ("std::cmp::PartialEq::eq", "std::cmp::PartialEq::ne") and x[1][0] == n.body.path:
+            site = Site(n.body, x[1][1], n.body.blocks[x[1][1]]["term"])
+            cb = ctx.prog.callee_body(site)
+            if cb is not None:
+                rt = strip_wrap(ctx.prog.bp(cb).local_term(0, ctx.prog.cfg(cb).exits[0], "term")) if ctx.prog.cfg(cb).exits else None
+                if rt is not None and rt[0] == "binop" and rt[1] == "Eq" and {rt[2], rt[3]} == {("discr", ("param", 1)), ("discr", ("param", 2))}:
+                    return ("binop", "Eq" if x[2].endswith("::eq") else "Ne", ("discr", bp.arg_term(x[1][1], 0)), ("discr", bp.arg_term(x[1][1], 1)))
+        return x
+    from mirq.interp import rebuild as _rb
+    raw = _rb(raw, eq_of_enum)
+    if derives_from is not None:
+        # the tested value must derive from the chain function's result (possibly through
+        # crate-local wrappers around it)
+        Ic, chain_fn = derives_from
+        ex = Ic.expand(raw)
+        if not any(st[0] == "call" and ctx.prog.by_key.get(st[2]) is not None and ctx.prog.by_key[st[2]].path == chain_fn.path for st in subterms(ex)):
+            return None
+    tt = P.I.in_context(k[0], n.body, raw)
+    mset = set(members)
+    if not any(st[0] == "phi" and set(st[1]) == mset for st in subterms(tt)):
+        return None
+    out = []
+    for m in members:
+        g = rebuild(tt, lambda x: m if (x[0] == "phi" and set(x[1]) == mset) else x)
+        v = flag_switch_value(ctx, g)
+        if v is None:
+            return None
+        tgt = None
+        for tv, tb in t["targets"]:
+            if str(tv) == str(v):
+                tgt = tb
+        if tgt is None:
+            tgt = t["otherwise"]
+        out.append((k[0], n.body.path, tgt))
+    if out[0] == out[1]:
+        return None
+    return out[0], out[1]
+
+
 def n1_flag(ctx, rep):
     """Dispatch arm sets the notify flag true, Keep arm false, true before the loop; the flag is
     the first component of the chain result"""
@@ -622,6 +724,7 @@ def n1_flag(ctx, rep):
     flags = lr.flags.flags
     # candidate flag: a constant bool local assigned in both arms with opposite values
     cand = {}
+    vals_seen = {}
     n = 0
     for p in pe.paths:
         if p.end != "stop:%d" % h:
@@ -639,11 +742,14 @@ def n1_flag(ctx, rep):
         # the same through values: `flag = dispatch` where `dispatch` is the arm's constant
         env = getattr(p, "env", None) or {}
         for l, v in env.items():
-            if l in body.names and l in flags or (l in body.names and body.local_ty(l) == "bool"):
-                if isinstance(v, tuple) and v[0] == "const" and v[1] in ("true", "false") and arm[0] not in cand.get(l, {}):
-                    cand.setdefault(l, {}).setdefault(arm[0], set()).add(v[1] == "true")
+            if l in body.names and isinstance(v, tuple):
+                fc = flag_const(ctx, v)
+                if fc is not None and arm[0] not in cand.get(l, {}):
+                    cand.setdefault(l, {}).setdefault(arm[0], set()).add(True if fc == "true" else (False if fc == "false" else fc))
+                    vals_seen.setdefault(l, {})[arm[0]] = strip_clone(strip_wrap(v))
     rep.floor(R, "reducer-answer arms enumerated", n, 2, s.where)
-    flag = [l for l, arms in cand.items() if arms.get("Dispatch") == {True} and arms.get("Keep") == {False}]
+    flag = [l for l, arms in cand.items() if len(arms.get("Dispatch", ())) == 1 and len(arms.get("Keep", ())) == 1 and arms["Dispatch"] != arms["Keep"]
+            and next(iter(arms["Dispatch"])) is not False and next(iter(arms["Keep"])) is not True]
     if len(flag) > 1:
         # iteration-local temporaries (`let (.., dispatch) = match ..`) are not the flag: the
         # flag is the one that also has a value before the loop
@@ -659,16 +765,37 @@ def n1_flag(ctx, rep):
     for p_ in cfg.pred[h]:
         if p_ not in blks:
             outside_defs |= set(bp.reaching_out(fl, p_))
+    # the two values of the flag (a bool, or a two-valued enum standing for it)
+    vs = vals_seen.get(fl, {})
+    notify_v = vs.get("Dispatch", ("const", "true", "bool"))
+    keep_v = vs.get("Keep", ("const", "false", "bool"))
+    want = flag_const(ctx, notify_v)
     vals = set()
     for d in outside_defs:
         kind, place, x = bp.def_rvalue(d)
-        vals.add(x["op"].get("val") if kind == "assign" and x["k"] == "use" else "?")
-    rep.check(vals == {"true"}, R, "flag-initially-true:" + short(body.path), ctx.where(body, h), "flag is true when no reducer ran", "flag before the loop is %s" % sorted(vals))
+        vals.add(flag_const(ctx, bp._def_term(d, kind, x, ())) or "?")
+    rep.check(vals == {want}, R, "flag-initially-true:" + short(body.path), ctx.where(body, h), "flag says `notify` (%s) when no reducer ran" % want, "flag before the loop is %s, the Dispatch value is %s" % (sorted(vals), want))
     # it is the first component of the chain result, and the caller's guard tests it
     rt = P.I.ret_term(body)
-    ok_ret = rt[0] == "agg" and any(x[0] == "phi" and set(x[1]) == {("const", "true", "bool"), ("const", "false", "bool")} for x in rt[2])
+    members = {notify_v, keep_v}
+    ok_ret = rt[0] == "agg" and any(x[0] == "phi" and set(x[1]) == members for x in rt[2])
     rep.check(ok_ret, R, "flag-returned:" + short(body.path), ctx.where(body), "chain result carries the flag", "chain result is %s" % term_str(rt))
     ctx._notify_flag = (body, fl)
+    ctx._notify_values = (notify_v, keep_v)
+
+
+def notify_values(ctx):
+    """(notify term, keep term) of the chain's flag; N1 locates them (run silently if needed)"""
+    v = getattr(ctx, "_notify_values", None)
+    if v is None:
+        from mirq.report import Report
+        try:
+            n1_flag(ctx, Report("scratch"))
+        except Exception:
+            pass
+        v = getattr(ctx, "_notify_values", None) or (("const", "true", "bool"), ("const", "false", "bool"))
+        ctx._notify_values = v
+    return v
 
 
 def n2_flag_edges(ctx):
@@ -683,29 +810,17 @@ def n2_flag_edges(ctx):
     if Ic is None:
         Ic = Interp(ctx.prog, opaque=lambda b_: b_.path == chain_fn.path)
         P._I_chain = Ic
+    members = notify_values(ctx)
     te, fe = [], []
     for k, n in G.nodes.items():
         t = n.body.blocks[n.bb]["term"]
         if t["k"] != "switch" or t["discr"]["k"] == "const":
             continue
-        bp = ctx.prog.bp(n.body)
-        raw = bp.operand_term(t["discr"], n.bb, "term")
-        neg = False
-        if raw[0] == "unop" and raw[1] == "Not":
-            raw = raw[2]
-            neg = True
-        ex = Ic.expand(raw)
-        if not any(st[0] == "call" and ctx.prog.by_key.get(st[2]) is not None and ctx.prog.by_key[st[2]].path == chain_fn.path for st in subterms(ex)):
+        r = flag_test_edges(ctx, G, k, n, members, P, derives_from=(Ic, chain_fn))
+        if r is None:
             continue
-        tt = P.I.in_context(k[0], n.body, raw)
-        if not (tt[0] == "phi" and set(tt[1]) == {("const", "true", "bool"), ("const", "false", "bool")}):
-            continue
-        zero = [b for v, b in t["targets"] if str(v) == "0"]
-        nonzero = t["otherwise"]
-        f_ = (k[0], n.body.path, nonzero if neg else (zero[0] if zero else nonzero))
-        t_ = (k[0], n.body.path, (zero[0] if zero else nonzero) if neg else nonzero)
-        fe.append((k, f_))
-        te.append((k, t_))
+        te.append((k, r[0]))
+        fe.append((k, r[1]))
     return te, fe
 
 
@@ -721,38 +836,8 @@ def n2_guard(ctx, rep):
         return
     rk, rs = red[0]
     chain_fn = rs.body
-    true_edges = []
-    false_edges = []
-    guards = []
-    for k, n in G.nodes.items():
-        t = n.body.blocks[n.bb]["term"]
-        if t["k"] != "switch" or t["discr"]["k"] == "const":
-            continue
-        bp = ctx.prog.bp(n.body)
-        raw = bp.operand_term(t["discr"], n.bb, "term")
-        neg = False
-        if raw[0] == "unop" and raw[1] == "Not":
-            raw = raw[2]
-            neg = True
-        # the tested value must derive from the chain function's result (possibly through
-        # crate-local wrappers around it)
-        Ic = getattr(P, "_I_chain", None)
-        if Ic is None:
-            Ic = Interp(ctx.prog, opaque=lambda b_: b_.path == chain_fn.path)
-            P._I_chain = Ic
-        ex = Ic.expand(raw)
-        if not any(st[0] == "call" and ctx.prog.by_key.get(st[2]) is not None and ctx.prog.by_key[st[2]].path == chain_fn.path for st in subterms(ex)):
-            continue
-        tt = P.I.in_context(k[0], n.body, raw)
-        if not (tt[0] == "phi" and set(tt[1]) == {("const", "true", "bool"), ("const", "false", "bool")}):
-            continue
-        guards.append((k, n))
-        zero = [b for v, b in t["targets"] if str(v) == "0"]
-        nonzero = t["otherwise"]
-        fe = (k[0], n.body.path, nonzero if neg else (zero[0] if zero else nonzero))
-        te = (k[0], n.body.path, (zero[0] if zero else nonzero) if neg else nonzero)
-        false_edges.append((k, fe))
-        true_edges.append((k, te))
+    true_edges, false_edges = n2_flag_edges(ctx)
+    guards = [k for k, _e in true_edges]
     if not rep.floor(R, "branches on the chain's notify flag", len(guards), 1):
         return
     # world where the flag is false: every test of it takes its false edge
